@@ -241,7 +241,7 @@ class Model:
             from .inventory import FUNCTIONS, MODULE_NAMES
         except ImportError:
             return
-        from .inline import MAX_ROUNDS, dissolve_attribute_records, dissolve_parameter_objects, fold_after_inlining, propagate_local_aliases, desugar_ifexp, desugar_match, desugar_exitstacks, desugar_partials_and_extends, desugar_return_all_any, dissolve_new_cm_classes, drop_absorbed_helpers, erase_new_namedtuples, inline_new_helpers, scalarise_local_dicts, unroll_new_tables, propagate_new_constants
+        from .inline import MAX_ROUNDS, canonical_spellings, collapse_return_temps, dissolve_attribute_records, dissolve_parameter_objects, fold_after_inlining, propagate_local_aliases, desugar_ifexp, desugar_match, desugar_exitstacks, desugar_partials_and_extends, desugar_return_all_any, dissolve_new_cm_classes, drop_absorbed_helpers, erase_new_namedtuples, inline_new_helpers, scalarise_local_dicts, unroll_new_tables, propagate_new_constants
 
         # functions whose source differs from the pinned tree (digest of ast.dump): only those are rewritten by the
         # statement-level normalisations that would otherwise also touch pinned code
@@ -253,6 +253,10 @@ class Model:
 
         self.changed_functions = {q for q, f_ in self.functions.items() if not f_.module.short.startswith("_typeguard")
                                   and HASHES.get(q) != hashlib.sha1(ast.dump(f_.node).encode()).hexdigest()[:12]}
+        if canonical_spellings(self):
+            self._reindex()
+        if self.changed_functions and collapse_return_temps(self, self.changed_functions):
+            self._reindex()
         if desugar_match(self):
             self._reindex()
         if desugar_ifexp(self):
